@@ -99,9 +99,11 @@ func (ts *TriangleSource) StartRun() error {
 			var now time.Time
 			select {
 			case <-ts.abortSelf:
+				verifPoint("prod.abortSeen")
 				close(ts.nextBlock)
 				return
 			case <-time.After(waittime):
+				verifPoint("prod.tick")
 				now = time.Now()
 				if ts.heartbeats != nil {
 					dt := now.Sub(ts.lastread).Seconds()
@@ -128,6 +130,7 @@ func (ts *TriangleSource) StartRun() error {
 				block.segments[channelIndex] = seg
 			}
 			ts.nextFrameNum += FrameIndex(ts.cycleLen)
+			verifPoint("prod.send")
 			ts.nextBlock <- block
 		}
 	}()
@@ -236,8 +239,10 @@ func (sps *SimPulseSource) StartRun() error {
 		for {
 			select {
 			case <-sps.abortSelf:
+				verifPoint("prod.abortSeen")
 				return
 			case <-ticker.C:
+				verifPoint("prod.tick")
 				//log.Println("SimPulseSource ticker has fired")
 				// Backtrack to find the time associated with the first sample.
 				firstTime := time.Now().Add(-sps.timeperbuf) // use now for accurate sample time
@@ -259,6 +264,7 @@ func (sps *SimPulseSource) StartRun() error {
 					block.segments[channelIndex] = seg
 				}
 				sps.nextFrameNum += FrameIndex(sps.cycleLen)
+				verifPoint("prod.send")
 				sps.nextBlock <- block
 				sps.lastread = time.Now()
 				blocksSentSinceLastHeartbeat++
@@ -309,6 +315,7 @@ func (es *ErroringSource) StartRun() error {
 	go func() {
 		block := new(dataBlock)
 		block.err = fmt.Errorf("ErroringSource always errors on first call")
+		verifPoint("prod.sendError")
 		es.nextBlock <- block
 	}()
 	return nil
